@@ -63,7 +63,7 @@ class Mon(Monitor):
                     continue
                 done = (r.qos == 1 and p['type'] == 'PUBACK') or \
                        (r.qos == 2 and p['type'] == 'PUBCOMP' and any(a[1] == 'PUBREC' and a[0] < w.step for a in r.acks))
-                if done and not r.fires:
+                if done and not r.ok:
                     out.append(V('ignored', 'completing-ack-ignored/%s/q%d' % (p['type'], r.qos),
                                  '%s(%d) delivered for transmitted request %d (qos %d) but its Deferred did not fire' % (
                                      p['type'], p['msgId'], r.idx, r.qos)))
@@ -109,6 +109,9 @@ def scenarios(ctx):
                    budgets=dict(pub=1 if q else 2, ack=3, dack=1, tick=3 if q else 4)))
     out.append(Std('pub-reenter', profile='pub', init=CONNECTED + (('setwin', 0, 2),), pub_qos=(1, 2), reenter=('pub',),
                    budgets=dict(pub=2, ack=3, tick=1)))
+    out.append(Std('pub-loss', profile='pub', mode='async', init=CONNECTED + (('setwin', 0, 2),), pub_qos=(1, 2),
+                   reconnects=[(True, 0, 4)],
+                   budgets=dict(pub=2, ack=2, tick=1, lose=1, disconnect=1, rebuild=1, connect=1, connack=1)))
     out.append(Std('pub-connecting', profile='pub', connects=[(True, 0, 4), (False, 0, 3)],
                    budgets=dict(connect=1, connack=1, pub=2 if q else 3, ack=3, dack=1, tick=1 if q else 2)))
     return out
